@@ -399,6 +399,10 @@ type xcResult struct {
 	Note    string   `json:"note,omitempty"`
 	OK      bool     `json:"ok"`
 	Repro   int      `json:"repro"`
+	// consume obligations of the formats that are defined as a series of members / frames (RFC 1952 gzip, RFC 8878
+	// zstd, framed snappy): did the consumer decode the payload from a stream of TWO members?  Every consumer of one
+	// encoding name must give the same answer ("the same name denotes the same algorithm").
+	Members *bool `json:"members,omitempty"`
 }
 
 type xcEnv struct {
@@ -573,6 +577,17 @@ func (e *xcEnv) run(o xcObl) xcResult {
 			res.Decoded = &tr
 		}
 		res.OK = dec == o.Expect
+		if o.Expect && (o.F == "rfc1952-gzip" || o.F == "rfc8878-zstd" || o.F == "snappy-framed") {
+			k := len(payload) / 2
+			two := append(append([]byte{}, xcStockEncode(o.F, payload[:k])...), xcStockEncode(o.F, payload[k:])...)
+			o2 := o
+			o2.N += ""
+			dec2, _ := e.consume(o2, o.Comp, two, carry, isPayload)
+			res.Members = &fa
+			if dec2 {
+				res.Members = &tr
+			}
+		}
 	case "check":
 		name := e.name(o)
 		body := xcMust(proto.Marshal(xcRequestMsg(xcData)))
@@ -658,7 +673,10 @@ func TestVerifC20Names(t *testing.T) {
 			}
 			bad++
 		}
-		if !r.OK || i%40 == 0 {
+		if !r.OK || i%40 == 0 || r.Members != nil {
+			if r.OK && r.Members != nil {
+				r.Repro = 3 // (deterministic decoders; the verdict on the two-member stream is compared across consumers)
+			}
 			out.Put(r)
 		}
 	}
